@@ -1,8 +1,8 @@
 (* C06 - Returned data is caller-owned; buffers and inputs are never aliased or overrun.
    Only statements, closed by `exact`, with Print Assumptions beneath each. *)
 From Coq Require Import ZArith List Bool.
-From SV.Pools Require Import Pool Api Buf Ev CheckSizeOk.
-From SV.Gen Require Import PureFns CheckSize Tables.
+From SV.Pools Require Import Pool Api ApiGen Buf Ev CheckSizeOk.
+From SV.Gen Require Import PureFns CheckSize Tables PoolApi.
 From SV.Str Require Import Unquote UnquoteProofs.
 Import ListNotations.
 
@@ -25,6 +25,31 @@ Theorem C06_api_owned_forever : forall progs sched, Forall (fun p => In p all_pr
                            | _ => True end) tr.
 Proof. exact api_owned_forever. Qed.
 Print Assumptions C06_api_owned_forever.
+
+(* ... and with the programs EXTRACTED FROM THE SOURCE on this run (Gen/PoolApi.v: Encode + encodeFinishWithPool, EncodeInto,
+   EncodeIndented, StreamEncoder.Encode, ast Node.MarshalJSON; every control-flow path x growth x poolable).  An edit that returns
+   a pooled buffer, or uses a buffer after freeing it, makes the extracted program non-linear (or is rejected by the emitter) *)
+Theorem C06_gen_programs_linear : forallb linear gen_progs = true.
+Proof. exact gen_programs_linear. Qed.
+Print Assumptions C06_gen_programs_linear.
+
+Theorem C06_gen_api_owned_forever : forall progs sched, Forall (fun p => In p gen_progs) progs ->
+  let '(sf, tr) := run (init progs) sched in
+  inv sf /\ Forall (fun e => match e with
+                           | (LWrite a, ow, pooled) => ~ In a ow /\ ~ In a pooled
+                           | _ => True end) tr.
+Proof. exact gen_api_owned_forever. Qed.
+Print Assumptions C06_gen_api_owned_forever.
+
+(* the extracted programs are executable to their end, and what they hand to the caller is in no pool afterwards *)
+Theorem C06_gen_programs_complete : forallb completes gen_progs = true.
+Proof. exact gen_programs_complete. Qed.
+Print Assumptions C06_gen_programs_complete.
+
+Theorem C06_gen_handover_not_pooled :
+  forallb hands_over_disjoint (filter (fun p => negb (existsb (fun i => match i with Move FromOwned _ => true | _ => false end) p)) gen_progs) = true.
+Proof. exact gen_handover_not_pooled. Qed.
+Print Assumptions C06_gen_handover_not_pooled.
 
 Theorem C06_owned_exclusive : forall s a, inv s -> In a (owned s) ->
   ~ In a (concat (pools s)) /\ ~ In a (flat_map regs_of (threads s)) /\ cnt a (owned s) = 1.
